@@ -1,3 +1,4 @@
-from . import p_state
+from . import p_state, p_docopt
 PROPS = {}
 PROPS.update(p_state.PROPS)
+PROPS.update(p_docopt.PROPS)
